@@ -560,6 +560,45 @@ func sameTokens(a, b string) bool {
 	return true
 }
 
+// broken spreads the expression over several lines the way gofmt-ed Go code does: a line may end after a binary
+// operator or an opening parenthesis (nowhere else: Go would insert a semicolon). Which of the permitted places are
+// taken is decided by the bits of salt. The result scans to the same Go tokens and parses to the same Go expression.
+func broken(text string, salt uint64) string {
+	var sc scanner.Scanner
+	fset := token.NewFileSet()
+	f := fset.AddFile("", fset.Base(), len(text))
+	sc.Init(f, []byte(text), nil, 0)
+	var sb strings.Builder
+	last := 0
+	prevOperand := false
+	k := 0
+	for {
+		pos, tok, lit := sc.Scan()
+		if tok == token.EOF || (tok == token.SEMICOLON && lit == "\n") {
+			break
+		}
+		off := fset.Position(pos).Offset
+		sb.WriteString(text[last:off])
+		spelled := lit
+		if spelled == "" {
+			spelled = tok.String()
+		}
+		sb.WriteString(spelled)
+		last = off + len(spelled)
+		isOperand := tok == token.IDENT || tok == token.INT || tok == token.RPAREN
+		breakable := (tok.IsOperator() && prevOperand && tok != token.RPAREN && tok != token.LPAREN) || tok == token.LPAREN
+		if breakable {
+			if salt>>(uint(k)%64)&1 == 1 {
+				sb.WriteString("\n\t\t")
+			}
+			k++
+		}
+		prevOperand = isOperand
+	}
+	sb.WriteString(text[last:])
+	return sb.String()
+}
+
 // ---- running goatlang -------------------------------------------------------------------------
 
 func goatValue(v any) goatlang.Value {
@@ -630,6 +669,48 @@ func checkCase(c *Case) *ev.Failure {
 		}
 		if got := render(rr.Rets[0], c.IsBool); got != c.Want[i] {
 			return fail(c, "locals", i, c.Want[i], got)
+		}
+	}
+	// form 3: as form 1, the expression spread over several lines (after binary operators and opening parentheses)
+	for _, salt := range []uint64{^uint64(0), ev.Hash(c.Text), ev.Hash(c.Text) >> 7} {
+		bt := broken(c.Text, salt)
+		if bt == c.Text {
+			continue
+		}
+		if !sameTokens(bt, c.Text) {
+			ev.R().Class("layout_rejected_by_own_scanner")
+			continue
+		}
+		ev.R().Class("multi_line_layouts")
+		src := "func fn(a int, b int, c int, d int, e int, g int, p bool, q bool, r bool, s bool, t bool, u bool) " + rt + " {\n\treturn " + bt + "\n}"
+		vm := goat.New()
+		r := vm.Eval(nil, src, goat.DefaultBudget)
+		if r.Failed() {
+			return fail(c, "locals, expression spread over lines:\n"+src+"\n", -1, "definition accepted", r.ErrString())
+		}
+		for i, m := range c.Vals {
+			var params []goatlang.Value
+			for _, n := range intNames {
+				if v, ok := m[n]; ok {
+					params = append(params, goatValue(v))
+				} else {
+					params = append(params, goatlang.Int32(1))
+				}
+			}
+			for _, n := range boolNames {
+				if v, ok := m[n]; ok {
+					params = append(params, goatValue(v))
+				} else {
+					params = append(params, goatlang.Bool(false))
+				}
+			}
+			rr := vm.Call("main.fn", 1, goat.DefaultBudget, params...)
+			if rr.Failed() {
+				return fail(c, "locals, expression spread over lines:\n"+src+"\n", i, c.Want[i], rr.ErrString())
+			}
+			if got := render(rr.Rets[0], c.IsBool); got != c.Want[i] {
+				return fail(c, "locals, expression spread over lines:\n"+src+"\n", i, c.Want[i], got)
+			}
 		}
 	}
 	// form 2: operands are globals, the expression is evaluated at top level
